@@ -523,10 +523,19 @@ def rule_v3(chk: Check, ix: Index, ir):
         ps = stmt_paths(cv.node.body)
     except AnalysisError:
         ps = set()
-    want_ok = {(("cond", "self.py_version >= min_version", True), ("exit", "return", "node"))}
-    rest = ps - want_ok
-    ok = want_ok <= ps and len(rest) == 1 and all(
-        pth[:-1] == (("cond", "self.py_version >= min_version", False),) and pth[-1][1] == "raise" and "min_version" in pth[-1][2] for pth in rest)
+    ACCEPT = {"self.py_version >= min_version": True, "min_version <= self.py_version": True,
+              "self.py_version < min_version": False, "min_version > self.py_version": False}
+    ok = len(ps) == 2
+    for pth in ps:
+        conds = [x for x in pth if x[0] == "cond"]
+        if len(conds) != 1 or conds[0][1] not in ACCEPT or len(pth) != 2:
+            ok = False
+            continue
+        high_enough = (conds[0][2] == ACCEPT[conds[0][1]])
+        if high_enough:
+            ok = ok and pth[-1][1:] == ("return", "node")
+        else:
+            ok = ok and pth[-1][1] == "raise" and "min_version" in pth[-1][2]
     chk.require(ok, "V3-py-version", "Parser.check_version:monotone", cv.where,
                 "check_version must return the node unchanged when py_version >= min_version and otherwise raise naming min_version "
                 "(monotone gate: a higher version never rejects what a lower one accepts)")
